@@ -445,17 +445,20 @@ qb_log_target_format(int32_t target,
 	}
 	pthread_rwlock_unlock(&_formatlock);
 
-	if (output_buffer[output_buffer_idx - 1] == '\n') {
+	if (output_buffer_idx > 0 && output_buffer[output_buffer_idx - 1] == '\n') {
 		output_buffer[output_buffer_idx - 1] = '\0';
 	} else {
 		output_buffer[output_buffer_idx] = '\0';
 	}
 
 	/* Indicate truncation */
-	if (t->ellipsis && output_buffer_idx >= t->max_line_length-1) {
+	if (t->ellipsis && output_buffer_idx >= 3 &&
+	    output_buffer_idx >= t->max_line_length-1) {
 		output_buffer[output_buffer_idx-3] = '.';
 		output_buffer[output_buffer_idx-2] = '.';
 		output_buffer[output_buffer_idx-1] = '.';
+		/* the dots may have replaced the terminator put in place of a newline */
+		output_buffer[output_buffer_idx] = '\0';
 	}
 }
 
